@@ -1330,6 +1330,136 @@ def run(ctx, anchors=None):
                          "%s calls %s and drops its result: after a refused input it continues with a half-configured instance (assertions of the signature-hash code abort the process)" % (f.name, setup_fns[n["cid"]].name))
     ctx.floor("R15.16", n16, 6, "call sites of the set-up functions")
 
+    # ---- R15.18 no variable-length array sized by input: a token read from stdin or typed at the prompt has no length limit
+    # (argv words do: 128 KiB), so `char buf[strlen(token) + 1]` is a stack overflow waiting for a long enough token
+    VLA_OK = {("cliargs::parse", "long_opts"): "sized by the number of options the program declares - a constant of each tool"}
+    ctx.rule("R15.18", "no variable-length array sized by input in btcdeb-authored code")
+    nvla = 0
+    for f in sorted(fb.funcs.values(), key=lambda f_: f_.id):
+        if f.body is None or f.file.startswith(("secp256k1", "test/", "kerl/")) or not (auth(f) or f.file in ("cliargs.h",)):
+            continue
+        for n in f.nodes():
+            if n["k"] != "decl":
+                continue
+            for d in n["decls"]:
+                ty = d.get("ty") or ""
+                if "[" in ty and ty.endswith("]") and d.get("arraysize") is None and not ty.endswith("[]"):
+                    nvla += 1
+                    ctx.site()
+                    why = VLA_OK.get((f.name, d["n"]))
+                    ctx.inst(why is not None, "R15.18", "vla:%s@%s" % (d["n"], f.name), f.loc(n), "%s %s: %s" % (ty, d["n"], why),
+                             "%s declares `%s %s`: the array lives on the stack and its size comes from the input (a token piped on stdin or typed at the prompt has no length limit): "
+                             "`python3 -c \"print('1'*12000000)\" | btcdeb` overflows the stack" % (f.name, ty, d["n"]))
+    ctx.extra["R15.18_vlas"] = nvla
+
+    # ---- R15.19 a local character buffer that is read as a string has been written on every path: arrays declared without an
+    # initialiser whose only writes are conditional are read uninitialised on the path that takes none of them
+    ctx.rule("R15.19", "a local char buffer read as a string (returned, converted, formatted) is written on every path before that read")
+    WRITERS = ("snprintf", "sprintf", "strcpy", "strncpy", "memset", "memcpy", "fgets", "fread", "read")
+    n19 = 0
+    seen19 = set()
+    for f in sorted(fb.funcs.values(), key=lambda f_: f_.id):
+        if not auth(f) and f.file not in ("debugger/interpreter.h", "value.h"):
+            continue
+        if f.body is None:
+            continue
+        fcfg = None
+        for dn in f.nodes():
+            if dn["k"] != "decl":
+                continue
+            for d in dn["decls"]:
+                ty = d.get("ty") or ""
+                if not (ty.startswith("char[") and d.get("arraysize")) or d.get("init") is not None:
+                    continue
+                aliases = {d["d"]}
+                for m in f.nodes():
+                    if m["k"] == "decl":
+                        for d2 in m["decls"]:
+                            i0 = d2.get("init")
+                            while i0 is not None and i0.get("k") in ("cast", "paren"):
+                                i0 = i0["e"]
+                            if i0 is not None and i0.get("k") == "ref" and i0.get("d") == d["d"]:
+                                aliases.add(d2["d"])
+
+                def mentions(e):
+                    return e is not None and any(x["k"] == "ref" and x.get("d") in aliases for x in walk(e))
+                writes, reads = [], []
+                for m in f.nodes():
+                    if m["k"] == "call" and m.get("n") in WRITERS and m.get("args") and mentions(m["args"][0]):
+                        writes.append(m)
+                    elif m["k"] == "assign" and m["lhs"].get("k") == "index" and mentions(m["lhs"].get("base")):
+                        writes.append(m)
+                for m in f.nodes():
+                    if m["k"] == "return" and mentions(m.get("e")):
+                        reads.append(m)
+                    elif m["k"] in ("call", "mcall", "ctor", "opcall") and m not in writes and m.get("n") not in WRITERS and any(mentions(a) for a in m.get("args", []) if a):
+                        if m["k"] == "opcall" and m.get("op") in ("=", "+=", "-=", "++") and mentions(m["args"][0]) and not any(mentions(a) for a in m["args"][1:]):
+                            continue      # pointer arithmetic on an alias, not a read of the bytes
+                        reads.append(m)
+                # reads inside a loop may rely on writes of earlier iterations (a fill loop that reports its own overflow): a
+                # path-insensitive rule cannot judge those; only straight-line functions are decided
+                reads = [r for r in reads if not any(a_.get("k") in ("while", "for", "do", "forrange") for a_ in f.ancestors(r))]
+                if not reads:
+                    continue
+                if (f.file, f.loc(dn)) in seen19:
+                    continue      # an inline function of a header is extracted once per unit
+                seen19.add((f.file, f.loc(dn)))
+                fcfg = fcfg or f.cfg()
+                n19 += 1
+                ctx.site()
+                wblocks = fcfg.blocks_of_nodes(writes)
+                dpos = fcfg.position(dn)
+                start = dpos[0] if dpos else fcfg.entry
+                free = fcfg.reachable_from(start, removed_blocks=wblocks) if start not in wblocks else set()
+                unwritten = [r for r in reads if not any(fcfg.dominates(w, r) for w in writes) and fcfg.position(r) and fcfg.position(r)[0] in free]
+                ctx.inst(not unwritten, "R15.19", "buffer-written-before-read:%s@%s" % (d["n"], f.name), f.loc(dn),
+                         "every read of %s is dominated by a write" % d["n"],
+                         "%s: `%s` at %s reads %s, which is declared without an initialiser and written only conditionally before it: on the path that takes none of the writes the bytes are "
+                         "indeterminate (valgrind: conditional jump depends on uninitialised value)" % ((f.name, astq.estr(unwritten[0])[:40], f.loc(unwritten[0]), d["n"]) if unwritten else (f.name, "", "", d["n"])))
+    ctx.floor("R15.19", n19, 1, "local char buffers read as strings outside loops")
+
+    # ---- R15.20 a record kept by value in a std::vector is copied member by member when the vector grows: every scalar member
+    # must be initialised by every constructor (an indeterminate enum / integer is loaded by the implicit copy constructor)
+    ctx.rule("R15.20", "records stored by value in vectors initialise every scalar member in every constructor")
+    import re as _re20
+    elem_recs = set()
+    for f in fb.funcs.values():
+        if f.body is None or not (auth(f) or f.file in ("value.h",)):
+            continue
+        for n in f.nodes():
+            if n["k"] == "decl":
+                for d in n["decls"]:
+                    m_ = _re20.match(r"(?:const )?std::vector<([A-Za-z_][A-Za-z_0-9:]*)>", (d.get("ty") or ""))
+                    if m_ and m_.group(1) in fb.records and fb.records[m_.group(1)].get("file") in ("value.h", "instance.h", "debugger/interpreter.h", "debugger/see.h", "tap.cpp", "functions.cpp", "btcdeb.cpp"):
+                        elem_recs.add(m_.group(1))
+        for p_ in f.params:
+            m_ = _re20.match(r"(?:const )?std::vector<([A-Za-z_][A-Za-z_0-9:]*)>", (p_.get("ty") or ""))
+            if m_ and m_.group(1) in fb.records and fb.records[m_.group(1)].get("file") in ("value.h", "instance.h", "debugger/interpreter.h", "debugger/see.h", "tap.cpp", "functions.cpp", "btcdeb.cpp"):
+                elem_recs.add(m_.group(1))
+
+    def is_scalar(ty):
+        t = (ty or "").replace("const ", "").strip()
+        return t.endswith("*") or t.startswith("enum ") or t in ("int", "bool", "char", "unsigned int", "size_t", "int64_t", "uint32_t", "uint8_t", "uint64_t", "long", "unsigned long", "opcodetype", "SigVersion", "unsigned char")
+    n20 = 0
+    for rn in sorted(elem_recs):
+        sc = [fl["n"] for fl in fb.records[rn].get("fields", []) if is_scalar(fl.get("ty"))]
+        ctors = [c for c in fb.funcs.values() if c.rec == rn and c.short == rn.split("::")[-1] and c.body is not None]
+        if not sc or not ctors:
+            continue
+        n20 += 1
+        ctx.site(len(ctors))
+        gaps = []
+        for c in ctors:
+            inited = {i.get("field") for i in c.d.get("inits", []) if i.get("field")}
+            miss = [x for x in sc if x not in inited]
+            if miss:
+                gaps.append((c.params[0].get("ty") if c.params else "()", miss))
+        ctx.inst(not gaps, "R15.20", "members-initialised:" + rn, ctors[0].loc(),
+                 "every constructor of %s initialises %s (default member initialisers count)" % (rn, ", ".join(sc)),
+                 "%s(%s) leaves %s without an initialiser; %s objects are kept by value in a std::vector, whose growth copies every member: "
+                 "the copy loads an indeterminate value (UBSan: load of value 3200171710, which is not a valid value for type 'opcodetype')" % ((rn, gaps[0][0], ", ".join(gaps[0][1]), rn) if gaps else (rn, "", "", rn)))
+    ctx.floor("R15.20", n20, 1, "records stored by value in vectors")
+
     # ---------------------------------------------------------------- R15.9
     ev = fb.fn("Instance::eval", file="instance.cpp")
     opstep = fb.fn("StepScript", file="script/interpreter.cpp")
@@ -1544,6 +1674,9 @@ def callers_establish(fb, prog, ctor, a, K):
 
 
 MUTANTS = [
+    dict(name="token-sized-stack-array", file="instance.cpp", find="            if (std::to_string(n) == v) {", replace="            char nbuf[vlen + 1];\n            snprintf(nbuf, vlen + 1, \"%d\", n);\n            if (!strcmp(nbuf, v)) {", expect=["R15.18:vla:nbuf@Instance::eval"]),
+    dict(name="hashtype-buffer-uninitialised", file="debugger/interpreter.h", find="    char buf[100] = \" \"; // the names are joined with blanks; the leading one is skipped below", replace="    char buf[100];", expect=["R15.19:buffer-written-before-read:buf@hashtype_str"]),
+    dict(name="value-member-without-initialiser", file="value.h", find="    opcodetype opcode = OP_0;", replace="    opcodetype opcode;", expect=["R15.20:members-initialised:Value"]),
     dict(name="signing-context-not-created", file="value.cpp", find="void Value::do_pubkey_to_xpubkey() {\n    if (!secp256k1_context_sign) ECC_Start();\n", replace="void Value::do_pubkey_to_xpubkey() {\n", expect=["R15.17:sign-context@Value::do_pubkey_to_xpubkey"]),
     dict(name="tap-ignores-failed-configuration", file="tap.cpp", find="        if (!instance.configure_tx_txin()) abort(", replace="        instance.configure_tx_txin(); if (false) abort(", expect=["R15.16:status-used:configure_tx_txin@main"]),
     dict(name="sighash-for-any-input-count", file="instance.cpp", find="    if (tx->vin.size() != 1) {\n        fprintf(stderr, \"error: a signature hash can only be computed", replace="    if (false) {\n        fprintf(stderr, \"error: a signature hash can only be computed", expect=["R15.7:size-relation=Init@Instance::calc_sighash"]),
